@@ -83,8 +83,8 @@ func (s *setSubj[T]) Fresh() Subject {
 
 func (s *setSubj[T]) class(x T) string {
 	if s.cfg.Elem == "float" { // == conflates -0 and +0 and never finds NaN: no memo
-		if s.cfg.Kind == "treeset" {
-			return s.d.Class(x)
+		if s.cfg.Kind == "treeset" || s.cfg.NoNaN {
+			return s.d.Class(x) // (without NaN the natural order's classes are exactly =='s: -0 and +0 are one member)
 		}
 		return s.d.Str(x)
 	}
@@ -295,6 +295,17 @@ func (s *setSubj[T]) check(o *Oracle) {
 	if !(o.On("C04") || o.On("C02") || o.On("C09") || o.On("C15") || o.On("C16")) {
 		return
 	}
+	if derive(o.cur.ID, 91, 2) == 1 && o.On("C04") {
+		for j := 0; j < 3; j++ { // (observer order varies, see listSubj.check)
+			v := s.d.At(derive(o.cur.ID, 92+j, len(s.d.Tab)))
+			if got, want := s.s.Contains(v), s.find(v) >= 0; got != want {
+				o.Fail("C04", "contains", "after %s (asked before Values()): Contains(%s)=%v, want %v", o.cur, s.d.Str(v), got, want)
+			}
+		}
+		if got := s.s.Size(); got != len(s.m) {
+			o.Fail("C04", "size", "after %s (asked before Values()): Size()=%d, want %d", o.cur, got, len(s.m))
+		}
+	}
 	vals := s.s.Values()
 	if o.On("C04") || o.On("C16") {
 		tag := "C04"
@@ -316,10 +327,15 @@ func (s *setSubj[T]) check(o *Oracle) {
 			o.Fail(tag, "contains-empty", "after %s: Contains() with no arguments is false", o.cur)
 		}
 		n := 1 + derive(o.cur.ID, 1, 6)
+		others := 3
+		if derive(o.cur.ID, 2, 6) == 0 {
+			n = 30 + derive(o.cur.ID, 3, 20) // a long argument list, nearly all members (repeated)
+			others = 24
+		}
 		q := make([]T, n)
 		want := true
 		for i := range q {
-			if len(s.m) > 0 && derive(o.cur.ID, 20+i, 3) > 0 {
+			if len(s.m) > 0 && derive(o.cur.ID, 20+i, others) > 0 {
 				q[i] = s.m[derive(o.cur.ID, 30+i, len(s.m))]
 			} else {
 				q[i] = s.d.At(derive(o.cur.ID, 10+i, len(s.d.Tab)))
@@ -643,6 +659,16 @@ func (s *setSubj[T]) DoHostile(op Op) {
 		}
 	case "Enum":
 		hostileIdxEnum[T](setEnum(s.s), a[0], s.d)
+		if en := setEnum(s.s); en != nil && a[0]%3 == 0 {
+			// results of Select/Map are sets like any other: algebra among them and with the receiver
+			r1 := en.Select(func(i int, _ T) bool { return i%2 == 0 }).(sets.Set[T])
+			r2 := en.Map(func(_ int, v T) T { return v }).(sets.Set[T])
+			for _, n := range []string{"Intersection", "Union", "Difference"} {
+				setAlgebra[T](r1, r2, n).Add(vs...)
+				setAlgebra[T](r2, s.s, n).Add(vs...)
+				setAlgebra[T](s.s, r1, n).Add(vs...)
+			}
+		}
 	case "Algebra":
 		other := s.make(vs...)
 		for _, n := range []string{"Intersection", "Union", "Difference"} {
